@@ -97,3 +97,55 @@ package proof
 //@ loop 1: invariant forall i Int, j Int :: 0 <= i && i < j && j < len(addrs) ==> !(addrs[j] < addrs[i])
 //@ loop 0: invariant true
 //@ loop 1: invariant true
+// (an element that is skipped is skipped alone: no break ends the visit of the rest)
+//@ loop 0: exhaustive
+
+// ---- C12: the service functions put the pieces together -----------------------------------------------------------------
+// The header of block H carries the app hash that results from block H-1: a value proven against block H's header must be
+// read - with its IAVL and multistore proofs - at height H-1, the height just below the commit that signs the header.
+// CommitHeight: height of the commit the node returned last (RPC: assumed).
+//@ ghost CommitHeight Int
+//@ extern (c github.com/cosmos/cosmos-sdk/client.CometRPC) Commit(ctx, height) (result, err)
+//@ modifies CommitHeight
+//@ ensures err == nil ==> result.SignedHeader.Header.Height == CommitHeight && CommitHeight >= 1
+// ProofKey: the store key the last value-with-proofs query was made for
+//@ ghost ProofKey []byte
+//@ func getProofsByKey
+//@ trusted
+//@ modifies ProofKey
+//@ requires queryOptions.Height == CommitHeight - 1 && queryOptions.Prove
+//@ ensures ProofKey == key
+//@ func GetMultiStoreProof
+//@ trusted
+//@ func decodeIAVLLeafPrefix
+//@ trusted
+//@ func (blockRelay *BlockRelayProof) encodeToEthData
+//@ trusted
+//@ func (o *OracleDataProof) encodeToEthData
+//@ trusted
+//@ func (o *RequestsCountProof) encodeToEthData
+//@ trusted
+// the request count is stored by the oracle keeper as 8 big-endian bytes (sdk.Uint64ToBigEndian); the proof reports that
+// number, read the same way
+//@ func (s proofServer) RequestCountProof
+//@ modifies CommitHeight, ProofKey
+//@ may_panic
+//@ assert after rs: rs == u64of(value)
+//@ assert after requestsCountProof: requestsCountProof.Count == u64of(value)
+// the value proven is the oracle module's request counter, and the proof is labelled with the height of the block whose
+// header (and signatures) it carries
+//@ ensures err == nil ==> ProofKey == oracletypes.RequestCountStoreKey && result.Result.Proof.BlockHeight == CommitHeight
+// one result proof: the value proven is the stored result of the request asked for, decoded as a Result
+//@ func (s proofServer) Proof
+//@ modifies CommitHeight, ProofKey
+//@ may_panic
+//@ assert after oracleData: oracleData.Result == dec(oracletypes.Result, value)
+//@ ensures err == nil ==> ProofKey == oracletypes.ResultStoreKey(req.RequestId) && result.Result.Proof.BlockHeight == CommitHeight
+//@ extern encoding/json.Unmarshal(data, v) (err)
+//@ modifies v
+// several result proofs under one header: every value is read at the same height, the one below the commit
+//@ func (s proofServer) MultiProof
+//@ modifies CommitHeight, ProofKey
+//@ may_panic
+//@ ensures err == nil ==> result.Result.Proof.BlockHeight == CommitHeight
+//@ loop 0: invariant commit.SignedHeader.Header.Height == CommitHeight && CommitHeight >= 1
